@@ -77,7 +77,7 @@ AlphaStructA ==
 
 (* with padding, comments, a second identifier and a chunked string        *)
 AlphaStructB ==
-  AlphaStructA \o << EvPad, EvCmt, EvRT("b"), EvRec("b"), EvVer(1),
+  AlphaStructA \o << EvPad, EvCmt, [EvCmt EXCEPT !.cmtok = FALSE], EvRT("b"), EvRec("b"), EvVer(1),
                      EvABegin("string"), EvChunk(1, FALSE), EvData(<<98>>) >>
 
 (* C13: markers and references *)
@@ -92,7 +92,8 @@ AlphaMarker ==
 EvSp(m, dt, sp) == [E0 EXCEPT !.m = m, !.dt = dt, !.sp = sp]
 EvK(m, dt, k)   == [E0 EXCEPT !.m = m, !.dt = dt, !.k = k]
 AlphaAll ==
-  << EvPad, EvCmt, [EvCmt EXCEPT !.multi = TRUE, !.bytes = <<42, 47>>], EvNull,
+  << EvPad, EvCmt, [EvCmt EXCEPT !.multi = TRUE, !.bytes = <<47, 42, 42, 47>>],
+     [EvCmt EXCEPT !.cmtok = FALSE], [EvCmt EXCEPT !.multi = TRUE, !.cmtok = FALSE], EvNull,
      EvBool("OnTrue", "true"), EvBool("OnFalse", "false"), EvBool("OnBoolean", "true"),
      EvInt("pint", "1"), EvInt("nint", "-1"), EvInt("int", "-1"),
      EvInt("bigint", "1180591620717411303424"), EvInt("bigint", "-7"), EvNilBig,
@@ -227,6 +228,12 @@ AlphaDoc ==
 (* How an array is chunked is a concretisation choice of the harness       *)
 (* (whole event, or begin + chunks + data events), not of the model.       *)
 FilterDoc(s, e) == Step(s, e).st = "ok" /\ Cur(s).cur <= 3
+(* The CTE corpus (C02, C03): AlphaDoc plus what only matters to the text  *)
+(* format - comments (single- and multi-line), padding (which CTE drops),  *)
+(* and custom text (which CBE cannot carry).                               *)
+AlphaDocCTE ==
+  AlphaDoc \o << EvPad, [EvCmt EXCEPT !.k = "@cmt#1"], [EvCmt EXCEPT !.k = "@cmtm#1", !.multi = TRUE],
+                 [EvCTxt(<<97>>) EXCEPT !.k = "@ctxt#1"] >>
 (* C13, builder clause: references and markers at every position of lists long enough to   *)
 (* outgrow a slice's first capacity steps, and as map values                             *)
 AlphaRefs ==
